@@ -515,8 +515,27 @@ func Origins(v ssa.Value) []ssa.Value {
 			rec(x.X)
 		case *ssa.TypeAssert:
 			rec(x.X)
+		case *ssa.Field:
+			// field of a struct VALUE (e.g. the state struct a phase function returns): the stores into that field
+			// of the local variable(s) the value was loaded from
+			if vals := localFieldStores(x.X, x.Field, 0); len(vals) > 0 {
+				for _, sv := range vals {
+					rec(sv)
+				}
+				return
+			}
+			out = append(out, v)
 		case *ssa.UnOp:
 			if x.Op == token.MUL {
+				// load of a field of a LOCAL struct (p := &state{...}; p.f): the stores into that field
+				if fa, ok := x.X.(*ssa.FieldAddr); ok {
+					if vals := localFieldStores(fa.X, fa.Field, 0); len(vals) > 0 {
+						for _, sv := range vals {
+							rec(sv)
+						}
+						return
+					}
+				}
 				// load: follow stores into a local alloc
 				if a, ok := x.X.(*ssa.Alloc); ok {
 					n := 0
@@ -945,4 +964,80 @@ func MayBeZeroValue(v ssa.Value) bool {
 		return false
 	}
 	return rec(v)
+}
+
+// localFieldStores: base is a struct value or a pointer to a struct. When it denotes a local variable of a
+// repository function (an Alloc, possibly seen through parameters of virtually inlined helpers, results of inlined
+// calls, phis), the values stored into field number idx of that variable are returned. Fields of objects that
+// are not local (receivers, parameters of anchored functions, globals) yield nothing: their loads stay origins.
+func localFieldStores(base ssa.Value, idx int, depth int) []ssa.Value {
+	if depth > 3 {
+		return nil
+	}
+	var allocs []*ssa.Alloc
+	seen := map[ssa.Value]bool{}
+	var find func(v ssa.Value, d int)
+	find = func(v ssa.Value, d int) {
+		if v == nil || seen[v] || d > 8 {
+			return
+		}
+		seen[v] = true
+		switch x := v.(type) {
+		case *ssa.Alloc:
+			allocs = append(allocs, x)
+		case *ssa.UnOp:
+			if x.Op == token.MUL {
+				// a struct value loaded from a local variable
+				if a, ok := x.X.(*ssa.Alloc); ok {
+					// either the variable holds the struct itself, or a pointer that was stored into it
+					allocs = append(allocs, a)
+					for _, r := range *a.Referrers() {
+						if st, ok := r.(*ssa.Store); ok && st.Addr == a {
+							find(st.Val, d+1)
+						}
+					}
+				}
+			}
+		case *ssa.Phi:
+			for _, e := range x.Edges {
+				find(e, d+1)
+			}
+		case *ssa.Extract:
+			if c, ok := x.Tuple.(*ssa.Call); ok && InlinedCallee(c) != nil {
+				for _, r := range inlinedResults(c, x.Index) {
+					find(r, d+1)
+				}
+			}
+		case *ssa.Call:
+			if InlinedCallee(x) != nil {
+				for _, r := range inlinedResults(x, 0) {
+					find(r, d+1)
+				}
+			}
+		case *ssa.Parameter:
+			for _, a := range inlinedArgs(x) {
+				find(a, d+1)
+			}
+		case *ssa.ChangeType:
+			find(x.X, d+1)
+		case *ssa.MakeInterface:
+			find(x.X, d+1)
+		}
+	}
+	find(base, 0)
+	var out []ssa.Value
+	for _, a := range allocs {
+		for _, r := range *a.Referrers() {
+			fa, ok := r.(*ssa.FieldAddr)
+			if !ok || fa.Field != idx {
+				continue
+			}
+			for _, r2 := range *fa.Referrers() {
+				if st, ok := r2.(*ssa.Store); ok && st.Addr == fa {
+					out = append(out, st.Val)
+				}
+			}
+		}
+	}
+	return out
 }
